@@ -40,7 +40,7 @@ def harness(args, timeout=3000):
     return json.loads(last[-1]) if last else {}
 
 # ---------------------------------------------------------------- TLC: model checking
-def tlc_mc(cfg, module, workers=16, timeout=1500, overrides=None, extra=''):
+def tlc_mc(cfg, module, workers=16, timeout=1500, overrides=None, extra='', keep_output=False):
     """runs TLC on spec/<cfg>.cfg with spec/<module>.tla; overrides: {'MaxUser': 6} textual replacement in a copy of the cfg"""
     os.makedirs(WORK, exist_ok=True)
     cfgpath = SPEC + '/' + cfg + '.cfg'
@@ -73,7 +73,28 @@ def tlc_mc(cfg, module, workers=16, timeout=1500, overrides=None, extra=''):
     if not res['complete'] and not res['violated'] and rc != 124:
         raise ToolError('TLC failed on %s: %s' % (cfg, '\n'.join(lines[-25:])))
     res['tail'] = lines[-12:]
+    if keep_output: res['output'] = out
     return res
+
+def emit_lines():
+    """line of the Emit conjunct (= the action was taken to its end) of every action of Ruler.tla"""
+    out, cur = {}, None
+    for i, l in enumerate(open(SPEC + '/Ruler.tla'), 1):
+        m = re.match(r'^([A-Z][A-Za-z0-9]+)(\([^)]*\))? ==', l)
+        if m: cur = m.group(1)
+        if cur and 'Emit(' in l and not l.startswith('Emit'): out.setdefault(cur, i)
+    return out
+
+def mc_action_coverage(cfg, module, overrides=None, timeout=900):
+    """how often each action of the core specification was taken in a model-checking run (TLC -coverage)"""
+    r = tlc_mc(cfg, module, overrides=overrides, timeout=timeout, extra='-coverage 1', keep_output=True)
+    el = emit_lines(); counts = {a: 0 for a in el}
+    for l in r.pop('output', '').split('\n'):
+        m = re.match(r'^\s*\|*line (\d+), col \d+ to line \d+, col \d+ of module Ruler: (\d+)', l)
+        if m:
+            for a, ln in el.items():
+                if int(m.group(1)) == ln: counts[a] = max(counts[a], int(m.group(2)))
+    return counts
 
 def outcomes_consistent(res):
     """C06 at model level: all returns of the build at the same history position have the same outcome"""
